@@ -77,12 +77,20 @@ class SimClock:
 
     def __init__(self, t0=1_700_000_000.0):
         self.t = float(t0)
+        self.mono = 1000.0     # monotonic clock: never stepped backwards
 
     def now(self):
         return self.t
 
+    def monotonic(self):
+        return self.mono
+
     def advance(self, dt):
+        """Wall clock moves by dt (a jump may be negative); the monotonic
+        clock only ever moves forwards."""
         self.t += dt
+        if dt > 0:
+            self.mono += dt
 
 
 class SimKill(BaseException):
